@@ -82,15 +82,17 @@ impl UserDefinedDataReader {
             .iter_mut()
             .find(|x| x.key() == publication_builtin_topic_data.key())
         {
+            // An updated announcement of an already matched writer is not a new match
             Some(x) => *x = publication_builtin_topic_data,
-            None => self
-                .matched_publication_list
-                .push(publication_builtin_topic_data),
+            None => {
+                self.matched_publication_list
+                    .push(publication_builtin_topic_data);
+                self.subscription_matched_status.current_count_change += 1;
+                self.subscription_matched_status.total_count += 1;
+                self.subscription_matched_status.total_count_change += 1;
+            }
         }
         self.subscription_matched_status.current_count = self.matched_publication_list.len() as i32;
-        self.subscription_matched_status.current_count_change += 1;
-        self.subscription_matched_status.total_count += 1;
-        self.subscription_matched_status.total_count_change += 1;
     }
 
     pub fn remove_matched_publication(&mut self, publication_handle: &InstanceHandle) {
